@@ -467,11 +467,17 @@ def run_twin(spec, ctx, rng, u):
         outpath = os.path.join(outdir, name + "." + ("%02X" % pel.eid) + ".json")      # twin ids are >= 0x10000000 (below)
         fail_at = 0
         nops = None
+        stale = mode != "file" and exp is not None and rng.random() < 0.25
         while True:
             shutil.rmtree(d, ignore_errors=True)
             os.makedirs(outdir)
             with open(P, "wb") as f:
                 f.write(data)
+            if stale:
+                # what an interrupted earlier export may leave behind: same name, same size, wrong content, recent time stamp
+                with open(os.path.join(outdir, name + "." + ("%02X" % pel.eid) + ".json"), "w") as f:
+                    f.write(rng.choice(["\0", " ", "x"]) * len(exp))
+                ctx.count("twin.stale_output")
             del log[:]
             plan_.update(op=0, fail_at=fail_at, failed=None)
             state.update(out=os.path.abspath(outpath), armed=True,
